@@ -45,6 +45,12 @@ pub fn quad_universe() -> Vec<AQuad> {
             }
         }
     }
+    // subject = predicate, predicate = object (for repeated variables across positions)
+    u.push(([ex("p"), ex("p"), ex("a")], None));
+    u.push(([ex("a"), ex("p"), ex("p")], Some(ex("g"))));
+    u.push(([ex("q"), ex("q"), ex("q")], None));
+    u.push(([ATerm::triple(ex("p"), ex("p"), ex("b")), ex("q"), ex("a")], None));
+    u.push(([ATerm::triple(ex("p"), ex("q"), ex("b")), ex("p"), ex("a")], None));
     // quoted triples
     u.push(([ATerm::triple(ex("a"), ex("p"), ex("b")), ex("q"), ex("a")], None));
     u.push(([ex("a"), ex("q"), ATerm::triple(ex("a"), ex("p"), int(1))], Some(ex("g"))));
@@ -64,6 +70,8 @@ fn core_quads() -> Vec<AQuad> {
         ([ex("b"), ex("p"), tru()], Some(ex("h"))),
         ([ATerm::triple(ex("a"), ex("p"), ex("b")), ex("q"), ex("a")], None),
         ([ATerm::b("x"), ex("q"), ex("a")], Some(ex("h"))),
+        ([ex("p"), ex("p"), ex("a")], None),
+        ([ex("a"), ex("p"), ex("p")], None),
     ]
 }
 
@@ -87,7 +95,7 @@ pub fn datasets(tier: Tier) -> Vec<Vec<AQuad>> {
 
 fn tps() -> Vec<[TP; 3]> {
     let subj = [v("x"), v("y"), TP::Bnode("b".into()), c(ex("a")), TP::Quoted(Box::new([v("x"), c(ex("p")), v("y")]))];
-    let pred = [c(ex("p")), c(ex("q")), v("p")];
+    let pred = [c(ex("p")), c(ex("q")), v("p"), v("x"), v("y")];
     let obj = [v("x"), v("y"), v("z"), c(ex("a")), c(int(1)), c(ATerm::lang("a", "en")), TP::Bnode("b".into()), c(ex("b"))];
     let mut out = vec![];
     for s in &subj {
@@ -111,6 +119,10 @@ fn core_tps() -> Vec<[TP; 3]> {
         [v("x"), c(ex("p")), c(int(1))],
         [TP::Quoted(Box::new([v("x"), c(ex("p")), v("y")])), c(ex("q")), v("z")],
         [v("y"), v("p"), v("x")],
+        [v("x"), v("x"), v("y")],
+        [v("x"), v("y"), v("y")],
+        [TP::Quoted(Box::new([v("x"), v("x"), v("y")])), c(ex("q")), v("z")],
+        [TP::Quoted(Box::new([v("x"), v("y"), c(ex("b"))])), v("x"), v("z")],
     ]
 }
 fn core_bgps(n: usize) -> Vec<Pat> {
@@ -342,6 +354,11 @@ pub fn queries(tier: Tier) -> Vec<Query> {
             out.extend(forms);
         } else {
             out.push(forms[i % forms.len()].clone());
+            // DISTINCT matters where solutions may leave different variables unbound
+            if matches!(p, Pat::Union(..) | Pat::Bind(..)) {
+                out.push(forms[1].clone());
+                out.push(forms[3].clone());
+            }
         }
     }
     out
@@ -632,6 +649,37 @@ pub fn run(tier: Tier) -> Report {
                     rep.stats.inc("not_implemented_confirmed");
                 }
                 other => rep.violations.push(Violation::new(format!("unsupported-operator-not-refused:{name}"), format!("{q}: {other:?}"), json!({"query": q, "data": quads_nq(d)}))),
+            }
+        }
+    }
+    // dataset clauses: either refused, or answered over the dataset that the clause describes
+    // (FROM NAMED <g>: the default graph is empty and <g> is the only named graph)
+    let from_named_pats: Vec<Pat> = vec![
+        Pat::Graph(GN::Const(ex("h")), Box::new(Pat::Bgp(vec![[v("x"), v("p"), v("y")]]))),
+        Pat::Graph(GN::Const(ex("g")), Box::new(Pat::Bgp(vec![[v("x"), v("p"), v("y")]]))),
+        Pat::Graph(GN::Var("g".into()), Box::new(Pat::Bgp(vec![[v("x"), v("p"), v("y")]]))),
+        Pat::Graph(GN::Const(ex("h")), Box::new(Pat::Bgp(vec![]))),
+        Pat::Graph(GN::Var("g".into()), Box::new(Pat::Bgp(vec![]))),
+        Pat::Bgp(vec![[v("x"), v("p"), v("y")]]),
+    ];
+    for pat in &from_named_pats {
+        for ask in [false, true] {
+            let q = Query { ask, distinct: false, proj: None, pat: pat.clone(), offset: 0, limit: None };
+            let text = render(&q);
+            let text = if ask { text.replacen("ASK", "ASK FROM NAMED <http://ex.org/g>", 1) } else { text.replacen(" WHERE", " FROM NAMED <http://ex.org/g> WHERE", 1) };
+            for d in ds.iter().step_by(5) {
+                rep.stats.inc("validated");
+                let restricted: Vec<AQuad> = d.iter().filter(|q| q.1.as_ref() == Some(&ex("g"))).cloned().collect();
+                let expected = eval_query(&q, &restricted);
+                let ok = match run_query(d, &text) {
+                    Got::NotImplemented(_) => true,
+                    Got::Bool(x) => ask && x != expected.is_empty(),
+                    Got::Rows(_, rows) => !ask && multiset(&rows) == multiset(&expected),
+                    _ => false,
+                };
+                if !ok {
+                    rep.violations.push(Violation::new("dataset-clause-neither-refused-nor-honoured:from-named", format!("{text} on {:?}: {:?}", quads_nq(d), run_query(d, &text)), json!({"query": text, "data": quads_nq(d)})));
+                }
             }
         }
     }
